@@ -631,6 +631,12 @@ class Evaluator:
             known = getattr(self, "field_ranges", {}).get(_raw_field(a))
             if known is not None:  # a value re-assembled bit by bit from one input field keeps that field's range
                 lo, hi = max(lo, known[0]), min(hi, known[1])
+            if not a.is_const() and sum(1 for b_ in a.bits if b_ != 0) == 1 and all(b_ == 0 or isinstance(b_, tuple) for b_ in a.bits):
+                # a masked single bit of weight w: `v > c` (0 <= c < w), `v >= c` (1 <= c <= w), `v == w` all read that bit
+                k_ = next(i for i, b_ in enumerate(a.bits) if b_ != 0)
+                w_ = 1 << k_
+                if (isinstance(op, ast.Gt) and 0 <= c < w_) or (isinstance(op, ast.GtE) and 1 <= c <= w_) or (isinstance(op, ast.Eq) and c == w_ and w_ > 1):
+                    return SymInt([a.bits[k_]])
             if isinstance(op, ast.Gt):
                 if lo > c:
                     return True
@@ -710,7 +716,17 @@ class Evaluator:
         name = dotted(e.func) or ""
         if name in self.hooks:
             return self.hooks[name](self, e)
-        args = [self.expr(a) for a in e.args]
+        args = []
+        for a in e.args:
+            if isinstance(a, ast.Starred):  # f(*fields) with fields a tuple / list built before
+                inner = self.expr(a.value)
+                if isinstance(inner, SymBytes):
+                    inner = list(inner.items)
+                if not isinstance(inner, (list, tuple)):
+                    raise Unsupported(f"starred argument `{norm(a)}`")
+                args.extend(inner)
+            else:
+                args.append(self.expr(a))
         kwargs = {k.arg: self.expr(k.value) for k in e.keywords}
         if name in ("bytes", "bytearray") and len(args) == 1:
             a = args[0]
